@@ -54,7 +54,7 @@ def sender_session(cw, env_rnd, ids, mode, k, nmsgs, sid):
     m = gen.add_pair(s, g, kem, mode, info=info, psk=psk, pskid=pskid, rng=rng_pattern(g, env_rnd, kem, k))
     for i in range(nmsgs if aead != 0xFFFF else 0):
         pt = g.blob(gen.LEN_SMALL, maxrand=300)
-        aad = g.blob(gen.LEN_SMALL, maxrand=100)
+        aad = g.blob(gen.LEN_SMALL + ([65535, 65536, 65537, 70000] if i == 0 and k % 3 == 0 else []), maxrand=100)
         api = env_rnd.choice(["alloc", "inplace"])
         s.call("seal", ctx="S", api=api, pt=pt, aad=aad, out="m%d" % i)
         if api == "alloc":
@@ -65,6 +65,18 @@ def sender_session(cw, env_rnd, ids, mode, k, nmsgs, sid):
         ex = g.blob([0, 1, 32, 255], maxrand=100)
         s.call("export", ctx="S", exctx=ex, len=L)
         s.call("export", ctx="R", exctx=ex, len=L)
+    if aead != 0xFFFF and k % 2 == 0:
+        # single-shot forms (info != aad), sealed by the real code and opened by the real code
+        for api in ("alloc", "inplace"):
+            sinfo, saad = g.rbytes(env_rnd.choice([0, 7, 64])), g.rbytes(env_rnd.choice([0, 9, 33, 65537]))
+            q = "q" + api
+            s.call("ss_seal", mode=mode, pkr="$kR.pk", info=sinfo, pt=g.blob(gen.LEN_SMALL, maxrand=200), aad=saad,
+                   rng=rng_pattern(g, env_rnd, kem, 0), api=api, out=q, **m["sargs"])
+            ra = dict(mode=mode, skr="$kR.sk", enc="$%s.enc" % q, info=sinfo, **m["rargs"])
+            if api == "alloc":
+                s.call("ss_open", api="alloc", ct="$%s.full" % q, aad=saad, **ra)
+            else:
+                s.call("ss_open", api="inplace", ct="$%s.ct" % q, tag="$%s.tag" % q, aad=saad, **ra)
     return s
 
 
@@ -100,6 +112,13 @@ def ref_sender_session(cw, env_rnd, ids, mode, nmsgs, sid):
                 s.call("open", ctx="R", api="alloc", ct=full, aad=aad, want=cl.hexs(pt))
             else:
                 s.call("open", ctx="R", api="inplace", ct=full[:-16], tag=full[-16:], aad=aad, want=cl.hexs(pt))
+    if aead != 0xFFFF:
+        enc2, ctx2, _ = su.setup_s(mode, pkR, info, g.raw(k.nsk), psk, pskid, skS)
+        pt2, aad2 = g.raw(env_rnd.choice([0, 1, 31, 64])), g.raw(env_rnd.choice([0, 7, 40]))
+        full2 = ctx2.seal(aad2, pt2)
+        ssa = dict(mode=mode, skr=k.serialize_private(skR), enc=enc2, info=info, **margs)
+        s.call("ss_open", api="alloc", ct=full2, aad=aad2, want=cl.hexs(pt2), **ssa)
+        s.call("ss_open", api="inplace", ct=full2[:-16], tag=full2[-16:], aad=aad2, want=cl.hexs(pt2), **ssa)
     for L in export_lens(env_rnd, kdf):
         ex = g.raw(env_rnd.choice([0, 1, 32, 100]))
         want = ctx.export(ex, L)
